@@ -41,3 +41,53 @@ Qed.
 
 Theorem validate_old_refuted : exists k, validate_old k = true /\ validate k = false.
 Proof. exists (RSA 2041 65537). vm_compute. split; reflexivity. Qed.
+
+(* ---- the parse step explicit ---- *)
+Theorem pipeline2_signs_validated p k :
+  agree p -> pipeline2 p = Signed k -> validate k = true.
+Proof.
+  unfold agree, pipeline2. intros A. destruct (validated p) as [kv|]; [|discriminate].
+  destruct (validate (snd kv)) eqn:V; [|discriminate].
+  rewrite A. intros H. inversion H; subst. exact V.
+Qed.
+
+(* without the agreement nothing follows: the validator approves a strong key, the signer's parser
+   finds a weak one in the same text *)
+Theorem pipeline2_disagree_refuted :
+  exists p k, pipeline2 p = Signed k /\ validate k = false.
+Proof.
+  exists {| validated := Some (1, RSA 2048 65537); signed := Some (2, RSA 1024 65537) |}, (RSA 1024 65537).
+  vm_compute. split; reflexivity.
+Qed.
+
+Theorem pipeline_of_single_parse path v s k :
+  parses_twice path = false -> pipeline_of path v s = Signed k -> validate k = true.
+Proof.
+  unfold pipeline_of. intros T. rewrite T. apply pipeline2_signs_validated. reflexivity.
+Qed.
+
+Theorem pipeline_of_strong path v s k :
+  (parses_twice path = true -> s = v) -> pipeline_of path v s = Signed k -> validate k = true.
+Proof.
+  unfold pipeline_of. intros A. apply pipeline2_signs_validated. unfold agree. cbn [signed validated].
+  destruct (parses_twice path); [apply A; reflexivity|reflexivity].
+Qed.
+
+Lemma agreeb_sound p : agreeb p = true ->
+  forall s v, signed p = Some s -> validated p = Some v -> fst s = fst v.
+Proof.
+  unfold agreeb, pkey_eqb. intros H s v Hs Hv. rewrite Hs, Hv in H. apply N.eqb_eq in H. exact H.
+Qed.
+
+(* a weak or unparsable key is a client error on every path, whatever the second parser says *)
+Theorem pipeline_of_weak_is_client_error path v s :
+  (forall k, v = Some k -> validate (snd k) = false) -> pipeline_of path v s = ClientError.
+Proof.
+  unfold pipeline_of, pipeline2. cbn [validated]. destruct v as [k|]; [|reflexivity].
+  intros H. rewrite (H k eq_refl). reflexivity.
+Qed.
+
+(* the one-parser pipeline of the earlier model is the instance "both outputs are the same" *)
+Lemma pipeline2_single parsed :
+  pipeline2 {| validated := option_map (fun k => (0, k)) parsed; signed := option_map (fun k => (0, k)) parsed |} = pipeline parsed.
+Proof. unfold pipeline2, pipeline. destruct parsed as [k|]; cbn; [destruct (validate k)|]; reflexivity. Qed.
